@@ -43,28 +43,64 @@ fn check_if_inputs_are_power_of_two(
     let mut is_even: bool = false;
 
     //if the first expression is a number literal that is a power of 2
-    if let Expression::NumberLiteral(_, val_string, _) = *box_expression {
-        let value = val_string
-            .parse::<u32>()
-            .expect("Could not parse NumberLiteral value from string to u32");
-
-        if (value != 0) && ((value & (value - 1)) == 0) {
+    if let Expression::NumberLiteral(_, val_string, exponent_string) = *box_expression {
+        if is_power_of_two_literal(&val_string, &exponent_string) {
             is_even = true;
         }
     }
 
     //if the first expression is a number literal that is a power of 2
-    if let Expression::NumberLiteral(_, val_string, _) = *box_expression_1 {
-        let value = val_string
-            .parse::<u32>()
-            .expect("Could not parse NumberLiteral value from string to u32");
-
-        if (value != 0) && ((value & (value - 1)) == 0) {
+    if let Expression::NumberLiteral(_, val_string, exponent_string) = *box_expression_1 {
+        if is_power_of_two_literal(&val_string, &exponent_string) {
             is_even = true;
         }
     }
 
     is_even
+}
+
+//Checks if a decimal number literal of any size is a power of two.
+//A literal with an exponent (ie. 1e18) is a multiple of ten and is not treated as a power of two.
+fn is_power_of_two_literal(val_string: &str, exponent_string: &str) -> bool {
+    if !exponent_string.is_empty() || val_string.is_empty() {
+        return false;
+    }
+
+    let mut digits: Vec<u8> = vec![];
+    for character in val_string.chars() {
+        match character.to_digit(10) {
+            Some(digit) => digits.push(digit as u8),
+            None => return false,
+        }
+    }
+
+    loop {
+        //remove leading zeros
+        while digits.len() > 1 && digits[0] == 0 {
+            digits.remove(0);
+        }
+
+        if digits == vec![0] {
+            return false;
+        }
+
+        if digits == vec![1] {
+            return true;
+        }
+
+        //an odd number other than one is not a power of two
+        if digits[digits.len() - 1] % 2 == 1 {
+            return false;
+        }
+
+        //halve the number
+        let mut carry = 0;
+        for digit in digits.iter_mut() {
+            let current = carry * 10 + *digit;
+            *digit = current / 2;
+            carry = current % 2;
+        }
+    }
 }
 
 #[test]
